@@ -14,11 +14,16 @@ def run(prop, tier, seed, sections, variants, rule, assumptions, extra_jobs=None
     chunk = 1500
     for name, kw, extra in variants:
         exe = cx.exe(name, **kw)
-        opts = tuple(sorted(set(stock) | set(kw.get("defs") or []) - {"EAV_EXTRA"}))
+        opts = tuple(sorted(set(stock) | set(kw.get("defs") or []) - {"EAV_EXTRA", "NDEBUG"}))
         for i in range(0, len(addrs), chunk):
             jobs.append((AG.w_addr, (exe, addrs[i:i + chunk], [prop], opts, extra, sections, allow_on, name)))
         if extra_jobs:
             jobs += extra_jobs(cx, exe, opts, extra, name)
+    if prop in ("C01", "C16"):
+        # addresses whose local part has 2 GiB and more (lengths that do not fit an int), uninstrumented build, high-level call only
+        from .. import localgen as LG
+        jobs[0:0] = LG.huge_jobs(cx.exe("plain-O2", san="plain-O2"), ["822", "5321", "5322", "6531"], tier, tuple(sorted(stock)), prop,
+                                 lanes=2, direct=False)
     for parts in core.pmap(_run, jobs):
         rep.merge(parts[prop] if prop in parts else parts)
     if post:
